@@ -1,6 +1,6 @@
 import OnlVerif.Lemmas.VCKFinal
 import OnlVerif.Lemmas.VCKGridEx
-import OnlVerif.Lemmas.WFQKFinal
+import OnlVerif.Lemmas.WFQKFair
 import OnlVerif.Lemmas.WFQKGridEx
 import OnlVerif.Props.C12
 import OnlVerif.Props.C14
@@ -594,27 +594,37 @@ theorem kernel_wfq_counters_eq (N scale F : Nat) (flow size : Int → Nat) (cfg 
   obtain ⟨acts, h⟩ := wfq_on_kernel_refines_lts N scale F flow size cfg d1 L arrivals hc hg hw fuel s hreach
   exact C12.stamp_counters_eq (WFQ.sched cfg) WFQ.init0 0 acts _ _ _ h f
 
-/-- **Static-backlog fairness for the LTS image of a kernel state** — *partial*.  What is proved: if the admissible LTS run
-that a reachable kernel state is the image of (`wfq_on_kernel_refines_lts`) has the static-backlog form of
-`C14.static_backlog_fair` (the scheduler empty at `s1`, then all arrivals `ps` before any other action, then no further
-arrival), the normalised service of any two classes still backlogged in `absWFQ s` differs by at most one maximum-size packet
-each.  The gap: with ONE source process on the kernel this form only arises for a single packet — the kernel processes the
-`StorePut` event of the first packet of a burst (the hand-off to the blocked loop) *before* the source's next zero-delay
-timeout, so the second arrival of a burst already follows a hand-off.  The full statement (a burst handed to `put` within one
-burst of a caller, or a backlog built while the server is busy) needs a workload process that calls `put` several times without
-yielding, which this program does not contain. -/
-theorem kernel_wfq_static_backlog_fair_partial (N F : Nat) (flow size : Int → Nat) (cfg : WfqCfg ℚ)
-    (hc : WFQK.CfgOK F cfg) (s : KState ℚ (WfqKSt ℚ))
-    (as1 : List (StAct ℚ)) (s1 : WFQ.WState) (i1 o1 : List SPkt)
-    (h1 : runActs (WFQ.sched cfg) (WFQ.start 0) as1 = .ok (s1, i1, o1)) (hempty : held s1 = [])
-    (Lm : Nat) (ps : List SPkt) (hps : ∀ p ∈ ps, 0 < p.size ∧ p.size ≤ Lm) (as2 : List (StAct ℚ)) (hnp : WFQ.NoPut as2)
-    (ins outs : List SPkt)
-    (h2 : runActs (WFQ.sched cfg) s1 (ps.map .put ++ as2) = .ok (absWFQ F flow size cfg N s, ins, outs))
+/-- **Static-backlog fairness on the kernel** (service started).  Workload: one burst — every packet arrives at the one
+instant `t0` (the first gap is `t0`, all others are 0), sizes in `(0, Lm]`.  On the kernel such a burst is *not* the action
+sequence `C14.static_backlog_fair` is stated for (all `put`s before any other action): the kernel processes the `StorePut` event
+of the first packet — the hand-off to the blocked loop — before the source's next zero-delay timeout, so one packet is taken
+out of the store before the others have arrived, although later arrivals of the instant may carry smaller stamps.  The LTS
+lemma is therefore generalised (`Lemmas/StampFairBurst.lean`: arrivals of one instant interleaved with arbitrary other actions;
+at most one packet is taken early because no transmission can end within the instant) and transferred step by step through the
+refinement.  Statement: in every state reachable by kernel steps, for any two classes `i`, `j` that still have a packet waiting
+in the store, the bits handed to `send_packet` so far (`out.put` observations plus the packet held by the server), normalised
+by weight, differ by at most one maximum-size packet each: `|S_i/w_i − S_j/w_j| ≤ 8·Lm/w_i + 8·Lm/w_j`. -/
+theorem kernel_wfq_static_backlog_fair (N scale F : Nat) (flow size : Int → Nat) (cfg : WfqCfg ℚ) (d1 L : Nat)
+    (arrivals : List (ℚ × Int)) (hc : WFQK.CfgOK F cfg) (hg : WFQK.GridOK scale size F cfg d1 L arrivals)
+    (hw : WFQK.WorkOK N size F flow cfg d1 arrivals) (Lm : Nat) (t0 : ℚ) (hb : WFQK.BurstOK size Lm t0 arrivals)
+    (fuel : Nat) (s : KState ℚ (WfqKSt ℚ))
+    (hreach : KReach (prog F flow size cfg N scale) (fuel + 1) (initState F arrivals) s)
     (i j : Nat) (wi wj : ℚ) (hwi : lookup cfg.weights i = some wi) (hwj : lookup cfg.weights j = some wj)
     (hbi : WFQ.Backlogged cfg (absWFQ F flow size cfg N s) i) (hbj : WFQ.Backlogged cfg (absWFQ F flow size cfg N s) j) :
-    |WFQ.bitsOf cfg i outs / wi - WFQ.bitsOf cfg j outs / wj| ≤ 8 * (Lm : ℚ) / wi + 8 * (Lm : ℚ) / wj :=
-  C14.static_backlog_fair cfg (wfq_pos_of_cfgOK hc) 0 as1 s1 i1 o1 h1 hempty Lm ps hps as2 hnp _ ins outs h2 i j wi wj hwi hwj
-    hbi hbj
+    |WFQ.bitsOf cfg i (WFQK.outPk size flow (histOf s.trace) ++ inHand (absWFQ F flow size cfg N s)) / wi -
+      WFQ.bitsOf cfg j (WFQK.outPk size flow (histOf s.trace) ++ inHand (absWFQ F flow size cfg N s)) / wj| ≤
+      8 * (Lm : ℚ) / wi + 8 * (Lm : ℚ) / wj := by
+  obtain ⟨a, hi⟩ := WFQK.reach_invF (size := size) fuel hc hg hw hb hreach
+  have he := absWFQ_eq hi.i.i.k hi.i.i.ai hi.i.i.l
+  rw [he] at hbi hbj ⊢
+  exact WFQ.fairB_bound (WFQK.pos_of_cfgOK hc) hi.f i j wi wj hwi hwj hbi hbj
+
+/-- the premise of `kernel_wfq_static_backlog_fair` is satisfiable: a burst of four unit packets at instant 1 -/
+example : WFQK.BurstOK (fun _ => 1) 1 1 [(1, 0), (0, 1), (0, 2), (0, 3)] := by
+  refine ⟨?_, fun _ => ⟨by norm_num, le_refl _⟩⟩
+  intro x hx
+  simp only [arrivalsFrom, List.mem_cons, List.not_mem_nil, or_false] at hx
+  rcases hx with rfl | rfl | rfl | rfl <;> norm_num
 
 /-- **Minimal stamp at every hand-off, on kernel states** (WFQ).  Let `s` be reachable by kernel steps and let the next
 kernel step be one in which the store hands an item over (the abstraction of the state after it has a handed item `it`, the
